@@ -288,8 +288,10 @@ ContainmentMonitors(h, f, b, T, loud, nerr, opened, how, dk) ==
         fl == StitchOf(f, b)
         HT == RestoreOf(h, b)
         \* file entries still listed unchanged whose blocks are all intact and unchanged
+        \* ("each file whose index hunk and blocks are untouched": an entry of the damaged hunk is not
+        \* untouched even when a flipped bit changed another entry of that hunk only)
         untouched == {e \in SeqRange(fl) : e.k = "File" /\ e \in SeqRange(hl) /\ EntryReadable(f, e) /\ EntryReadable(h, e)
-                         /\ FileBytes(f, e) = FileBytes(h, e)}
+                         /\ FileBytes(f, e) = FileBytes(h, e) /\ ~Affected(e)}
         \* (its directories must still be listed too: a file whose directory entry sat in the damaged
         \* hunk cannot be created, which is reported)
         ListedDirs(p) == \A i \in 1..(Len(p) - 1) : \E d \in SeqRange(fl) : d.p = SubSeq(p, 1, i) /\ d.k = "Dir"
@@ -433,6 +435,15 @@ DiffMonitors(r) ==
           {<<"DiffWrong", ToString(<<got \ SetDiff(A, B, r.overwrite), SetDiff(A, B, r.overwrite) \ got>>)>>})
   \cup If(judged /\ r.res = "ok" /\ ~StrictlyIncreasing(r.changes), {<<"DiffWrong", "not in path order">>})
 
+\* C13: where a real backup put the hunks of a band that needs more than one index sub-directory
+\* (the harness's own walk of that directory against doc/format.md's i/{n / 10000}/{n})
+PlacementMonitors(r) ==
+       If(r.panic, {<<"Panic", r.pmsg>>})
+  \cup If(r.timeout, {<<"Hang", "backup">>})
+  \cup If(~r.panic /\ ~r.timeout /\
+          (r.res # "ok" \/ r.misplaced # <<>> \/ ~r.consecutive \/ r.nhunks # r.expected \/ r.tail_count # r.nhunks \/ ~r.decodes),
+          {<<"Format", <<"hunk-placement", r.res, r.misplaced, r.consecutive, r.nhunks, r.expected, r.tail_count, r.decodes>> >>})
+
 DoObs(r) ==
     /\ UNCHANGED <<fs, g>>
     /\ viol' = viol \cup
@@ -443,6 +454,7 @@ DoObs(r) ==
                      [] r.what = "versions" -> VersionsMonitors(r)
                      [] r.what = "walk"     -> WalkMonitors(r)
                      [] r.what = "diff"     -> DiffMonitors(r)
+                     [] r.what = "placement" -> PlacementMonitors(r)
                      [] OTHER -> {})}
 
 \* The independent projection of the archive directory must equal the state rebuilt verb by
